@@ -56,12 +56,15 @@ Proof. destruct s as [[|x l]]; reflexivity. Qed.
 Lemma link_EMPTY : SmtString_s EMPTY = [].                                    Proof. reflexivity. Qed.
 
 (* ---- constructors (C17): clamp exactly the integers above MAX_CHAR ---- *)
+Lemma bind_ret {A} (o : option A) : bind o (fun t => Some t) = o.
+Proof. destruct o; reflexivity. Qed.
+
 (* pointwise facts about the clamp, whichever comparison the code uses *)
 Ltac pointwise := intros; cbv [clampc MAX_CHAR REPLACEMENT_CHAR MAXC REPLC]; gbools; gfin.
 
 Lemma link_from_slice a : option_map SmtString_s (M_SmtString_from_slice_u32 a) = made (from_slice a).
 Proof.
-  unfold M_SmtString_from_slice_u32, SmtString_from_slice_u32, from_slice. rewrite link_make, ?map_map.
+  unfold M_SmtString_from_slice_u32, SmtString_from_slice_u32, from_slice. rewrite ?bind_ret, link_make, ?map_map.
   first [ reflexivity | (f_equal; apply map_ext; pointwise) ].
 Qed.
 
@@ -78,7 +81,7 @@ Qed.
 
 Lemma link_from_u32 x : option_map SmtString_s (M_SmtString_from_u32 x) = Some (from_u32 x).
 Proof.
-  unfold M_SmtString_from_u32, SmtString_from_u32, from_u32. rewrite link_make.
+  unfold M_SmtString_from_u32, SmtString_from_u32, from_u32. rewrite ?bind_ret, link_make.
   rewrite made_spec. cbn [length Z.of_nat Z.leb Z.compare Pos.of_succ_nat Pos.compare Pos.compare_cont].
   first [ reflexivity | (f_equal; f_equal; pointwise) ].
 Qed.
@@ -88,7 +91,7 @@ Proof. unfold M_SmtString_from_char, SmtString_from_char. apply link_from_u32. Q
 
 Lemma link_from_str t : option_map SmtString_s (M_SmtString_from_str t) = made (from_str t).
 Proof.
-  unfold M_SmtString_from_str, SmtString_from_str, from_str. rewrite link_make, ?map_map.
+  unfold M_SmtString_from_str, SmtString_from_str, from_str. rewrite ?bind_ret, link_make, ?map_map.
   first [ reflexivity | (f_equal; apply map_ext; pointwise) ].
 Qed.
 
